@@ -856,4 +856,25 @@ theorem peval_family_volume (σs : List (Env K)) (d : VDom K) (ρ : Env K)
   List.map_congr_left fun σ hσ => peval_volume_of_params σ d ρ (h σ hσ)
 end
 
+/-! ## 9. feature crossing: a user-set volume survives the evaluation of ANY object at outer parameters -/
+
+section
+variable {K : Type} [Add K] [Sub K] [Mul K] [Div K] [Neg K] [LE K] [DecidableLE K]
+  [OfNat K 0] [OfNat K 1] [OfNat K 2] [OfNat K 3] [OfNat K 4] [Transc K]
+
+/-- whatever the object below is — a product with a Point factor (initial-time slab), a moved or Boolean domain, a
+    boundary — after `D(**σ)` the volume is the user's function at `ρ ∪ σ` (no side condition on `d` at all) -/
+theorem user_override_peval (d : VDom K) (f : PFun K) (σ ρ : Env K) (x : K) (h : f.f (ρ ++ σ) = [x]) :
+    volume ((VDom.userVol d f).peval σ) ρ = .ok (x, false) := by
+  simp [volume, volAux, VDom.peval, pfun_peval_f, h]
+
+/-- … e.g. `(Circle(r(k)) × Point(T, 0)).set_volume(7)` evaluated at `k = 2` -/
+example :
+    let P : VDom ℝ := .userVol (.prod (.circle "x" (.const [0, 0]) ⟨["k"], fun e => match e.get "k" with | some [k] => [k] | _ => []⟩)
+      (.point "T" (.const [0]))) (.const [7])
+    volume (P.peval [("k", [(2 : ℝ)])]) [] = .ok (7, false) := by
+  intro P
+  exact user_override_peval _ _ _ _ 7 rfl
+end
+
 end TPV.Geom
